@@ -1319,6 +1319,9 @@ class Unit:
             r0 = self.an.closure_arg.get((self.fn.def_path, "#0"))
             if r0 is not None:
                 st.cons[self.canon(("field", ("param", 2, self.fn.body.names.get(2, "_2")), "#0"))] = r0
+            r3 = self.an.closure_arg.get((self.fn.def_path, 3, "#0"))
+            if r3 is not None and self.fn.body.argc >= 3:
+                st.cons[self.canon(("field", ("param", 3, self.fn.body.names.get(3, "_3")), "#0"))] = r3
         self.explore(self.tree, 0, st, (), 0, ())
         return self
 
@@ -1745,6 +1748,19 @@ class Unit:
                 if n_hi is not None:
                     r = (0, max(n_hi - 1, 0))
                     ck = (args[1][2], "#0")
+                    old = self.an.closure_arg.get(ck)
+                    self.an.closure_arg[ck] = r if old is None else join(old, r)
+        if ls == "fold" and "Iterator" in full and len(args) == 3 and args[2][0] == "agg" and args[2][1] == "closure" and args[2][2]:
+            # `iter.fold(init, |acc, item| ..)`: the closure's second argument is an item of the iterator
+            src = args[0]
+            while src[0] == "call" and src[2] and last_seg(src[1]) in ("filter", "into_iter", "rev", "fuse", "peekable", "take_while",
+                                                                        "skip_while", "inspect", "skip", "take", "step_by"):
+                src = src[2][0]
+            if src[0] == "call" and last_seg(src[1]) == "enumerate":
+                n_hi = self._iter_len(src, st)
+                if n_hi is not None:
+                    r = (0, max(n_hi - 1, 0))
+                    ck = (args[2][2], 3, "#0")
                     old = self.an.closure_arg.get(ck)
                     self.an.closure_arg[ck] = r if old is None else join(old, r)
         if ls in TOTAL_EXT:
